@@ -32,7 +32,7 @@ ASSUMPTIONS = [
 FLOORS = {
     'quick': {'programs': 6000, 'both_accepted': 12000, 'setting:ignorecase': 600, 'setting:nameguard_off': 600,
               'setting:whitespace': 600, 'setting:parseinfo': 600, 'setting:comments': 600, 'setting:eol_comments': 600, 'setting:namechars': 600, 'setting:memo_off': 600, 'setting:ws_none': 600, 'sem:tagging': 2000, 'sem:identity': 2000, 'sem:tagging+params': 2000,
-              'kwlike_names': 400, 'pyconst_tokens': 400, 'long_names': 600, 'includes_or_based_rules': 500, 'reused_instance_parses': 20000, 'with_params': 400, 'with_directives': 1200, 'assoc_joins': 150, 'underscored_names': 400},
+              'kwlike_names': 400, 'pyconst_tokens': 400, 'long_names': 600, 'includes_or_based_rules': 500, 'reused_instance_parses': 20000, 'with_params': 400, 'with_directives': 1200, 'assoc_joins': 150, 'underscored_names': 400, 'via:config': 6000, 'via:config+kwargs': 3000},
     'thorough': {'programs': 100000, 'both_accepted': 200000},
 }
 N = {'quick': 9600, 'thorough': 160000}
@@ -207,12 +207,20 @@ SETTINGS = [
 SEMS = ['none', 'identity', 'tagging', 'tagging+params']
 
 
-def outcome(parse, text, settings, semname):
+def outcome(parse, text, settings, semname, via='kwargs'):
     from tatsu.exceptions import FailedParse
     sem = make_semantics(semname)
     kw = dict(settings)
     if sem is not None:
         kw['semantics'] = sem
+    if via == 'config':
+        # the same parse-time settings handed over as one configuration object (the documented config= argument)
+        from tatsu.config import ParserConfig
+        kw = {'config': ParserConfig(**kw)}
+    elif via == 'config+kwargs':
+        from tatsu.config import ParserConfig
+        sem_kw = {'semantics': kw.pop('semantics')} if 'semantics' in kw else {}
+        kw = dict(sem_kw, config=ParserConfig(**kw))
     try:
         return ('ok', pcanon(parse(text, **kw)))
     except FailedParse:
@@ -245,16 +253,16 @@ class Pair:
         except Exception as e:  # noqa: BLE001
             self.err = ('codegen', type(e).__name__, str(e)[:200])
 
-    def run(self, text, settings, semname):
-        a = outcome(self.model.parse, text, settings, semname)
-        b = outcome(lambda t, **kw: self.parser_cls().parse(t, **kw), text, settings, semname)
+    def run(self, text, settings, semname, via='kwargs'):
+        a = outcome(self.model.parse, text, settings, semname, via)
+        b = outcome(lambda t, **kw: self.parser_cls().parse(t, **kw), text, settings, semname, via)
         return a, b
 
-    def run_reused(self, text, settings, semname):
+    def run_reused(self, text, settings, semname, via='kwargs'):
         """the same input on ONE long-lived parser object (earlier parses, also failed ones, must not matter)"""
         if self.reused is None:
             self.reused = self.parser_cls()
-        return outcome(self.reused.parse, text, settings, semname)
+        return outcome(self.reused.parse, text, settings, semname, via)
 
 
 def relation(a, b):
@@ -312,7 +320,7 @@ def classify(g, tag, a, b):
     return f'{tag}/{S.kind_sig(g)}'
 
 
-def shrink(g, text, settings, semname, tag):
+def shrink(g, text, settings, semname, tag, via='kwargs'):
     start = g.rules[0].name
 
     def pred(g2, s2, t2):
@@ -321,7 +329,7 @@ def shrink(g, text, settings, semname, tag):
         p = Pair(g2)
         if p.err:
             return tag == 'build:' + p.err[0] + ':' + p.err[1]
-        a, b = p.run(t2, settings, semname)
+        a, b = p.run(t2, settings, semname, via)
         return relation(a, b) == tag
     try:
         return S.shrink(g, start, text, pred, budget=150)
@@ -359,8 +367,12 @@ def check_pair(acc, g, texts, origin, features=()):
         elif sname == 'namechars' and rng.random() < 0.5:
             i = rng.randrange(len(text) + 1)
             text = text[:i] + rng.choice('-_') + text[i:]
-        a, b = p.run(text, settings, semname)
+        # how the parse-time settings reach the parser: keyword arguments, or one ParserConfig object (config=)
+        kvia = rng.random()
+        via = 'kwargs' if kvia < 0.7 else ('config' if kvia < 0.9 else 'config+kwargs')
+        a, b = p.run(text, settings, semname, via)
         acc.evaluations += 1
+        acc.count('via:' + via)
         acc.count('setting:' + sname)
         acc.count('sem:' + semname)
         if a[0] == 'ok' and b[0] == 'ok':
@@ -371,7 +383,7 @@ def check_pair(acc, g, texts, origin, features=()):
             acc.count('both_failed' if b[0] == 'fail' else 'model_failed')
         tag = relation(a, b)
         if tag is None:
-            c = p.run_reused(text, settings, semname)
+            c = p.run_reused(text, settings, semname, via)
             acc.count('reused_instance_parses')
             if relation(b, c) is not None:
                 acc.count('disagreements_checked')
@@ -380,27 +392,27 @@ def check_pair(acc, g, texts, origin, features=()):
                               f'grammar {L.grammar_text(g).strip()!r} input {text!r} settings {settings} semantics {semname}: '
                               f'FRESH={b} REUSED={c} (earlier inputs: {texts[:5]})',
                               {'grammar': L.to_json(g), 'grammar_text': L.grammar_text(g), 'text': text, 'settings': settings,
-                               'sem': semname, 'earlier': texts[:5], 'origin': origin})
+                               'via': via, 'sem': semname, 'earlier': texts[:5], 'origin': origin})
             continue
         acc.count('disagreements_checked')
         mech = mechanism(g, text, settings, tag, a, b)
         if mech:
             acc.violation(f'{tag}/{mech}',
                           f'generated parser != model ({tag}, {mech}) grammar {L.grammar_text(g).strip()!r} input {text!r} '
-                          f'settings {settings} semantics {semname}: MODEL={a} GENERATED={b}',
+                          f'settings {settings} (given as {via}) semantics {semname}: MODEL={a} GENERATED={b}',
                           {'grammar': L.to_json(g), 'grammar_text': L.grammar_text(g), 'text': text, 'settings': settings,
-                           'sem': semname, 'model': a, 'generated': b, 'origin': origin})
+                           'via': via, 'sem': semname, 'model': a, 'generated': b, 'origin': origin})
             continue
-        g2, t2 = shrink(g, text, settings, semname, tag)
+        g2, t2 = shrink(g, text, settings, semname, tag, via)
         p2 = Pair(g2)
-        a2, b2 = p2.run(t2, settings, semname) if not p2.err else (a, b)
+        a2, b2 = p2.run(t2, settings, semname, via) if not p2.err else (a, b)
         if p2.err or relation(a2, b2) != tag:
             g2, t2, a2, b2 = g, text, a, b
         acc.violation(classify(g2, tag, a2, b2),
                       f'generated parser != model ({tag}) grammar {L.grammar_text(g2).strip()!r} input {t2!r} '
-                      f'settings {settings} semantics {semname}: MODEL={a2} GENERATED={b2}',
+                      f'settings {settings} (given as {via}) semantics {semname}: MODEL={a2} GENERATED={b2}',
                       {'grammar': L.to_json(g2), 'grammar_text': L.grammar_text(g2), 'text': t2, 'settings': settings,
-                       'sem': semname, 'model': a2, 'generated': b2, 'origin': origin})
+                       'via': via, 'sem': semname, 'model': a2, 'generated': b2, 'origin': origin})
 
 
 def run_shard(desc, acc):
@@ -427,7 +439,7 @@ def replay(w, acc):
     if p.err:
         check_pair(acc, g, [], {'mode': 'replay'})
         return
-    a, b = p.run(w['text'], w.get('settings', {}), w.get('sem', 'none'))
+    a, b = p.run(w['text'], w.get('settings', {}), w.get('sem', 'none'), w.get('via', 'kwargs'))
     acc.evaluations += 1
     tag = relation(a, b)
     if tag:
